@@ -18,7 +18,7 @@ ASSUME = ['src/ipc/TypedMsgHdr.cc of the current tree as built (ASan) by the scr
           'whole, so "truncated" means a size field smaller than what the reader asks for',
           'message objects sit in front of a 64 KB sentinel area so that reads beyond raw[] are judged by the reference '
           '(a get may succeed only inside min(size field, maxSize)) instead of aborting the run',
-          'wrong-kind get sequences cannot be detected by an untagged format; for them the oracle only demands: no read outside '
+          'a message whose size field exceeds maxSize may be refused at any get; wrong-kind get sequences cannot be detected by an untagged format; for them the oracle only demands: no read outside '
           'the stored data, exact bytes returned, an error when the data or a length field does not fit']
 
 
@@ -41,10 +41,12 @@ def run(ctx):
     oc = m['outcomes']
     if not m['failures'] and not m['crashes'] and not m['deadline_hit']:
         for k, n in (('round-trip-ok', 100), ('gets-accepted', 1000), ('get-rejected', 1000), ('type-rejected', 100),
-                     ('put-overflow-rejected', 50), ('get-rejected:beyond-buffer', 1)):
+                     ('put-overflow-rejected', 50)):
             if oc.get(k, 0) < n:
                 raise HarnessError('vacuity guard: outcome %s seen %d times (< %d)' % (k, oc.get(k, 0), n))
-    cov = seq.coverage_from(m, RULE, nontrivial_classes=['get-rejected', 'get-rejected:beyond-buffer', 'type-rejected',
+        if oc.get('get-rejected:beyond-buffer', 0) + oc.get('get-rejected:oversize-message', 0) < 100:
+            raise HarnessError('vacuity guard: no oversize size field was ever rejected: %r' % oc)
+    cov = seq.coverage_from(m, RULE, nontrivial_classes=['get-rejected', 'get-rejected:beyond-buffer', 'get-rejected:oversize-message', 'type-rejected',
                                                          'gets-accepted', 'put-overflow-rejected'], min_classes=3)
     return Result(LEVEL, cov, seq.violations_from(m), ASSUME)
 
